@@ -3,9 +3,10 @@
 // Input  : (kind behaviour (op …))  or  (kind behaviour (op …) shape)
 //
 //	kind      := basic | hook | ctl | nodata
-//	behaviour := ok | fail | sig | fork | nobin            (basic, hook: child scripts / the vh binary in child mode)
+//	behaviour := ok | fail | sig | fork | nobin | ign      (basic, hook: child scripts / the vh binary in child mode)
 //	           | noport | nobin | occ | occstay | occign | occfork | occfail   (ctl; occ* = fake OCC device)
 //	op        := launch | tick | start | stop | conf | trigger | kill | await
+//	           | (par A B)   A, B requests (start stop conf trigger kill): B is delivered while A is being served
 //	shape     := sh | sha | ex | exa      how the command reaches prepareTaskCmd (TaskCommandInfo.Shell / .Arguments):
 //	             sh  = through /bin/sh -c, no arguments      sha = through /bin/sh -c, value + arguments
 //	             ex  = exec'd directly, no arguments         exa = exec'd directly with arguments
@@ -21,6 +22,7 @@
 // Obs    : ((res r…) (emits e…) (alive 0|1|-))
 //
 //	r := ok | none | dead | ignored | loopexit | notask | norpc | nonhook | (r STATE err) | (h err) | (crash where) | hang
+//	   | (par rA rB)
 //	e := (S RUNNING|FINISHED|FAILED|KILLED) | (E final voluntary exitcode)
 //
 // Each case runs in its own re-executed vh process (runner.go), so a panic or a
@@ -147,11 +149,17 @@ loop:
 	sigs := sx.L(sx.A("sigs"))
 	done, hang, notimer := false, -1, false
 	var emitAt []int // number of emits when op i began
+	var opName []string
 	for _, l := range all {
 		f := strings.SplitN(l, " ", 3)
 		switch f[0] {
 		case "OP":
 			emitAt = append(emitAt, emits.Len()-1)
+			if len(f) > 2 {
+				opName = append(opName, f[2])
+			} else {
+				opName = append(opName, "")
+			}
 		case "EMIT":
 			n, err := sx.Parse(strings.TrimPrefix(l, "EMIT "))
 			if err != nil {
@@ -188,6 +196,18 @@ loop:
 		}
 		// the op in progress crashed; its own emissions are not compared (they race with the crash)
 		nres := res.Len() - 1
+		if site == "basicTaskBase.startBasicTask" && (nres >= len(opName) || opName[nres] != "par") {
+			// startBasicTask panics only in what it does with t.taskCmd after a concurrent Kill cleared it — in an
+			// overlap of the two. Its reaper goroutine is asynchronous to the answer of the START: when the panic
+			// lands after the overlap's results were reported it still belongs to that overlap (the latest one).
+			for p := min(nres, len(opName)) - 1; p > 0; p-- {
+				if opName[p] == "par" {
+					nres = p
+					res.List = res.List[:p+1]
+					break
+				}
+			}
+		}
 		if nres < len(emitAt) {
 			emits.List = emits.List[:emitAt[nres]+1]
 		}
@@ -243,6 +263,10 @@ func runImpl(input string) (string, error) {
 }
 
 var basicBehs = []string{"ok", "fail", "sig", "fork", "nobin"}
+
+// behaviours of basic/hook children that only the overlap family and the corpus use (the exhaustive families
+// stay as they were): `ign` ignores SIGTERM and SIGINT — a child that makes a request that waits for it last
+var overlapBehs = []string{"ok", "ign", "fork", "sig", "fail", "nobin"}
 var ctlBehs = []string{"noport", "nobin", "occ", "occstay", "occign", "occfork", "occfail"}
 var allOps = []string{"tick", "start", "stop", "conf", "trigger", "kill", "await"}
 
@@ -291,8 +315,23 @@ func shapesFor(kind, beh string) []string {
 
 func mkCase(kind, beh string, ops []string, shape string) fw.Case {
 	l := sx.L()
+	var tags []string
 	for _, o := range ops {
+		if strings.HasPrefix(o, "(") {
+			n, err := sx.Parse(o)
+			if err != nil {
+				panic(err)
+			}
+			l.Add(n)
+			if t := "overlap=" + n.At(1).Str() + "+" + n.At(2).Str(); !contains(tags, t) {
+				tags = append(tags, t)
+			}
+			continue
+		}
 		l.Add(sx.A(o))
+	}
+	if len(tags) > 0 {
+		tags = append(tags, "class=overlap")
 	}
 	n := len(ops)
 	lt := "len>=5"
@@ -303,7 +342,121 @@ func mkCase(kind, beh string, ops []string, shape string) fw.Case {
 	if shape != defaultShape(beh) {
 		in.Add(sx.A(shape))
 	}
-	return fw.Case{Input: in.String(), Tags: []string{"kind=" + kind, "beh=" + beh, lt, "shape=" + shape}}
+	return fw.Case{Input: in.String(), Tags: append([]string{"kind=" + kind, "beh=" + beh, lt, "shape=" + shape}, tags...)}
+}
+
+func contains(xs []string, x string) bool {
+	for _, y := range xs {
+		if x == y {
+			return true
+		}
+	}
+	return false
+}
+
+func par(a, b string) string { return "(par " + a + " " + b + ")" }
+
+var requestOps = []string{"start", "stop", "conf", "trigger", "kill"}
+
+// overlapCases: the class OVERLAPPING REQUESTS — a schedule element `(par A B)` delivers request B while request A
+// is still being served (both through eventLoop and the real handlers, which serve every MESSAGE and every KILL in
+// a goroutine of its own; see runner.go `overlap`). Every ordered pair of requests the harness can observe, in
+// every state of the task's child (never started / running / ended), for every kind; the pairs that matter for
+// the other child behaviours; random schedules with one or two overlaps.
+func overlapCases(tier string, r *rng.R) []fw.Case {
+	var cs []fw.Case
+	add := func(q *rng.R, kind, beh string, ops []string) {
+		cs = append(cs, mkCase(kind, beh, ops, rng.Pick(q, shapesFor(kind, beh))))
+	}
+	cat := func(xs ...[]string) []string {
+		var out []string
+		for _, x := range xs {
+			out = append(out, x...)
+		}
+		return out
+	}
+	for _, kind := range []string{"basic", "hook"} {
+		spawn := "start"
+		if kind == "hook" {
+			spawn = "trigger"
+		}
+		prefixes := [][]string{{"tick"}, {"tick", spawn}, {"tick", spawn, "await"}}
+		early := [][]string{{}, {spawn}} // before the TASK_RUNNING timer
+		suffixes := [][]string{{}, {"await"}, {"stop"}, {"kill"}, {spawn}, {"await", "kill"}, {"stop", "await"}}
+		for _, a := range requestOps {
+			for _, b := range requestOps {
+				if !parOK(kind, a, b) {
+					continue
+				}
+				for _, pre := range prefixes {
+					q := r.Fork()
+					add(q, kind, "ok", cat(pre, []string{par(a, b)}, rng.Pick(q, suffixes)))
+				}
+				if a == "kill" || b == "kill" {
+					for _, pre := range early {
+						q := r.Fork()
+						add(q, kind, "ok", cat(pre, []string{par(a, b)}, rng.Pick(q, [][]string{{}, {"tick"}, {"await"}})))
+					}
+				}
+			}
+		}
+		// the other child behaviours, for the pairs in which what the child does can matter
+		pairs := [][2]string{{"stop", "kill"}, {"kill", "stop"}, {spawn, "kill"}, {"kill", spawn}, {"stop", "stop"},
+			{spawn, "stop"}, {"stop", spawn}, {"kill", "kill"}}
+		n := 1
+		if tier == "thorough" {
+			n = 3
+		}
+		for _, beh := range overlapBehs[1:] {
+			for _, pr := range pairs {
+				for k := 0; k < n; k++ {
+					q := r.Fork()
+					add(q, kind, beh, cat(rng.Pick(q, prefixes), []string{par(pr[0], pr[1])}, rng.Pick(q, suffixes)))
+				}
+			}
+		}
+	}
+	// controllable tasks: overlapping transitions (the device serves one at a time). An overlapping KILL of a
+	// controllable task is NOT in the class: its Kill() is a long conversation with the device whose
+	// interleavings with another request the model does not describe (parOK refuses it).
+	for _, a := range requestOps {
+		for _, b := range requestOps {
+			if !parOK("ctl", a, b) {
+				continue
+			}
+			for _, pre := range [][]string{{}, {"conf"}} {
+				q := r.Fork()
+				add(q, "ctl", "occ", cat(pre, []string{par(a, b)}, rng.Pick(q, [][]string{{}, {"start"}, {"stop"}, {"await"}})))
+			}
+		}
+	}
+	for i := 0; i < 6; i++ {
+		q := r.Fork()
+		add(q, "ctl", rng.Pick(q, []string{"noport", "nobin"}), []string{par(rng.Pick(q, requestOps[:4]), rng.Pick(q, requestOps[:4]))})
+	}
+	add(r.Fork(), "nodata", "ok", []string{par("kill", "start")})
+	add(r.Fork(), "nodata", "ok", []string{par("stop", "kill"), "tick"})
+	// random schedules with one or two overlaps
+	nRandom := 40
+	if tier == "thorough" {
+		nRandom = 600
+	}
+	for i := 0; i < nRandom; i++ {
+		q := r.Fork()
+		kind := rng.Pick(q, []string{"basic", "basic", "hook"})
+		beh := rng.Pick(q, overlapBehs)
+		ops := randomOps(q, kind, q.Range(2, 5))
+		for k, nPar := 0, q.Range(1, 2); k < nPar; k++ {
+			a, b := rng.Pick(q, requestOps), rng.Pick(q, requestOps)
+			if !parOK(kind, a, b) {
+				b = "kill"
+			}
+			at := q.Range(0, len(ops))
+			ops = append(ops[:at], append([]string{par(a, b)}, ops[at:]...)...)
+		}
+		add(q, kind, beh, ops)
+	}
+	return cs
 }
 
 // expensive reports schedules that are slow by construction (escalation timers).
@@ -434,6 +587,8 @@ func generate(tier string, r *rng.R) []fw.Case {
 		ops := randomOps(q, "ctl", q.Range(2, maxLen-2))
 		add("ctl", beh, ops, rng.Pick(q, shapesFor("ctl", beh)))
 	}
+	// the class "overlapping requests" (drawn after everything else: the stream above is unchanged)
+	cs = append(cs, overlapCases(tier, r)...)
 	return append(slowCs, cs...)
 }
 
@@ -444,15 +599,25 @@ func nontrivial(input, obs string) bool {
 	}
 	ops := in.At(2)
 	spawn, end := in.At(0).Str() == "ctl", false
+	var flat []string
 	for i := 0; i < ops.Len(); i++ {
-		switch ops.At(i).Str() {
+		if el := ops.At(i); el.IsList {
+			for k := 1; k < el.Len(); k++ {
+				flat = append(flat, el.At(k).Str())
+			}
+		} else {
+			flat = append(flat, el.Str())
+		}
+	}
+	for _, o := range flat {
+		switch o {
 		case "start", "trigger":
 			spawn = true
 		case "kill", "stop", "await":
 			end = true
 		}
 	}
-	return ops.Len() >= 2 && spawn && end
+	return len(flat) >= 2 && spawn && end
 }
 
 func shrinkCands(input string) []string {
@@ -471,6 +636,21 @@ func shrinkCands(input string) []string {
 		}
 		out = append(out, c.String())
 	}
+	// an overlap replaced by one of its two requests
+	for i, el := range ops.List {
+		if !el.IsList || el.Len() != 3 {
+			continue
+		}
+		for k := 1; k <= 2; k++ {
+			n := sx.L()
+			n.List = append(append(append([]*sx.Node{}, ops.List[:i]...), el.At(k)), ops.List[i+1:]...)
+			c := sx.L(in.At(0), in.At(1), n)
+			if in.Len() == 4 {
+				c.Add(in.At(3))
+			}
+			out = append(out, c.String())
+		}
+	}
 	if in.Len() == 4 {
 		// the same schedule in the default command shape (smaller: if it still fails the shape does not matter)
 		out = append(out, sx.L(in.At(0), in.At(1), ops).String())
@@ -478,10 +658,61 @@ func shrinkCands(input string) []string {
 	return out
 }
 
+// soak (development aid): VH_C17_SOAK=<tier>:<seed>:<tag>[:<repeat>] runs the generated cases that carry the tag
+// (e.g. class=overlap) on the real code only, 12 at a time, and prints "input<TAB>obs" lines — the raw material
+// for `driver C17` (what the implementation does, before any model is asked).
+func soak(spec string) {
+	f := strings.Split(spec, ":")
+	if len(f) < 3 {
+		fmt.Println("VH_C17_SOAK=<tier>:<seed>:<tag>[:<repeat>]")
+		return
+	}
+	seed, _ := strconv.ParseUint(f[1], 10, 64)
+	rep := 1
+	if len(f) > 3 {
+		rep, _ = strconv.Atoi(f[3])
+	}
+	workDir = "/tmp/c17-soak"
+	os.MkdirAll(workDir, 0o755)
+	var cs []fw.Case
+	for _, c := range generate(f[0], rng.New(seed)) {
+		if contains(c.Tags, f[2]) {
+			for k := 0; k < rep; k++ {
+				cs = append(cs, c)
+			}
+		}
+	}
+	out := make([]string, len(cs))
+	sem := make(chan struct{}, 12)
+	done := make(chan struct{})
+	for i := range cs {
+		go func(i int) {
+			sem <- struct{}{}
+			obs, err := runImpl(cs[i].Input)
+			if err != nil {
+				obs = "ERR " + strings.ReplaceAll(err.Error(), "\n", " ")
+			}
+			out[i] = cs[i].Input + "\t" + obs
+			<-sem
+			done <- struct{}{}
+		}(i)
+	}
+	for range cs {
+		<-done
+	}
+	for _, l := range out {
+		fmt.Println(l)
+	}
+}
+
 func init() {
 	if v := os.Getenv("VH_C17_PROBE"); v != "" && os.Getenv(envCase) == "" && os.Getenv(envOCC) == "" && os.Getenv(envChild) == "" {
 		obs, err := runImpl(v)
 		fmt.Println(obs, err)
+		os.Exit(0)
+	}
+	if v := os.Getenv("VH_C17_SOAK"); v != "" && os.Getenv(envCase) == "" && os.Getenv(envOCC) == "" && os.Getenv(envChild) == "" {
+		soak(v)
 		os.Exit(0)
 	}
 	if os.Getenv(envCase) != "" || os.Getenv(envOCC) != "" || os.Getenv(envChild) != "" {
@@ -501,7 +732,12 @@ func init() {
 			"binary in child mode, exa: /bin/sh -c <script> resp. the device binary with arguments; a command that cannot be started: ex, exa only); random schedules draw " +
 			"their shape (thorough: the 3-step level in the shapes sh and ex, 2 steps in sha and exa); the model does not see the shape. Schedules that are slow by construction " +
 			"(escalation timers) are capped at 6 (thorough 80) per run in the first shape and 3 (thorough 30) in each other one; observed: results of every step, UPDATE/MESSAGE calls in order, panic site, reproduced hang, survivors (live processes that are an announced child, are in an " +
-			"announced child's process group, or inherited the task's environment — no assumption that a child leads its own group), signals received by the device. non-trivial = >=2 steps, a child was spawned and a stop/kill/await follows; distinct by input text",
+			"announced child's process group, or inherited the task's environment — no assumption that a child leads its own group), signals received by the device. " +
+			"OVERLAPPING REQUESTS (tags class=overlap, overlap=A+B): a schedule element (par A B) hands the events of two requests to the real eventLoop back to back, so that B is handled while A is still " +
+			"being served by the goroutine the real handler started (nothing of the task is touched by the harness): every ordered pair from {start,stop,conf,trigger,kill} except two requests that both start a child, " +
+			"for basic and hook tasks with the child never started / running / ended (and before the TASK_RUNNING timer for the pairs with a KILL), the pairs with stop/kill/start for the other child behaviours (ign = ignores SIGTERM/SIGINT, fork, sig, fail, nobin), " +
+			"every pair of transitions for a controllable task (an overlapping KILL of a controllable task is outside the class), a task without data, and 40 (thorough 600) random schedules with one or two overlaps; the model answers with the SET of " +
+			"all interleavings of the atomic parts of the two requests (monitor: the observation must be one of them), Spec is the same predicate. non-trivial = >=2 requests/steps, a child was spawned and a stop/kill/await follows; distinct by input text",
 		Shrink: shrinkCands,
 		// wider search after a break: the quick stream under another seed (every case costs a process and >= 0.2 s)
 		Search:  func(r *rng.R) []fw.Case { return generate("quick", r) },
@@ -520,7 +756,9 @@ func init() {
 			"that a carried-out KILL cancelled the TASK_RUNNING timer is observed as: no TASK_RUNNING within 800 ms of LAUNCH (4 x the timer's delay); a late TASK_RUNNING after that window would be missed by the run (not by the source fact basicKillStopsTimer)",
 			"emissions of the very step that crashes the executor are not compared (they race with the crash)",
 			"the fake OCC device obeys every transition of the teardown walk; a device that refuses (final TASK_KILLED path) is not exercised",
-			"log lines are used only as completion signals for handler paths that send nothing (no task, RPC down, non-hook trigger)",
+			"log lines are used only as completion signals for handler paths that send nothing (no task, RPC down, non-hook trigger, KILL of a task that is not active)",
+			"overlaps: the second event is offered to the fake decoder as soon as eventLoop has taken the first, i.e. it is waiting when the first handler returns (two events in one chunk of the agent's stream); which interleaving then happens is the Go scheduler's choice — the model accepts all interleavings of its atomic parts (one part per request; three for startBasicTask), not finer ones (e.g. a KILL between two of the four reads of t.taskCmd in ensureBasicTaskKilled)",
+			"after an overlap with a STOP, whether the STOP signalled a child is read off /proc (dead, zombie or SIGKILL pending within 150 ms of the STOP's answer); a panic of startBasicTask's reaper goroutine that lands after the overlap's results were reported is attributed to that overlap",
 		},
 	})
 	fw.RegisterGen(fw.GenFile{Name: "ExecTask.lean", Make: genExecTask})
